@@ -646,6 +646,7 @@ def backoff_iter(start, stop, count=None, factor=2.0, jitter=False):
         raise ValueError('expected stop >= 0')
     if stop < start:
         raise ValueError('expected stop >= start, not %r' % stop)
+    reach_stop = count is None
     if count is None:
         denom = start if start else 1
         # NB: the log is negative when start is 0 and stop < 1
@@ -666,6 +667,8 @@ def backoff_iter(start, stop, count=None, factor=2.0, jitter=False):
             cur_ret = cur - (cur * jitter * random.random())
         yield cur_ret
         i += 1
+        if reach_stop and i == count and cur < stop:
+            count += 1  # the float log above rounded down, keep going
         if cur == 0:
             cur = 1
         elif cur < stop:
